@@ -7,6 +7,7 @@ import (
 	"fmt"
 	"io"
 	"log"
+	"strings"
 
 	"verifsim/simrt"
 )
@@ -38,6 +39,8 @@ func out(s string) {
 		// a scheduling point: a task woken natively by a channel hand-off must not record anything before the
 		// scheduler has released it, otherwise the event order would depend on the Go runtime
 		simrt.Yield("log")
+		// the scratch directory's name differs from process to process: keep it out of the event log
+		s = strings.ReplaceAll(s, w.Root, "$ROOT")
 		w.AddLog(s)
 		w.Emit(simrt.Event{Kind: simrt.EvLog, Note: s})
 	}
@@ -46,6 +49,7 @@ func out(s string) {
 func stop(s string) {
 	if w := simrt.W(); w != nil {
 		simrt.Yield("log")
+		s = strings.ReplaceAll(s, w.Root, "$ROOT")
 		w.ProcessStopped(s)
 		panic(simrt.StopPanic{Msg: s})
 	}
